@@ -331,6 +331,22 @@ func (lv litValue) matches(got reflect.Value) (bool, string) {
 }
 
 // baseSamples are fixed, lexically canonical samples per literal kind.
+// nonCanonicalSamples are lexical forms the kind admits but an encoder need
+// not reproduce (C12 judges what they denote; C01's canonical class does not
+// use them).
+func nonCanonicalSamples(kind string) []interface{} {
+	switch kind {
+	case "XMLSchemaDateTime":
+		// fractional seconds, extreme offsets
+		return []interface{}{"2016-05-10T00:00:00.5Z", "2016-05-10T00:00:00.123456789+01:00", "1999-12-31T23:59:59.999-12:00", "2020-02-29T23:59:59.000001+14:00"}
+	case "XMLSchemaDuration":
+		// counts are decimal whatever their spelling: leading zeros, and
+		// components beyond their carry (36 hours, 90 minutes, 400 days)
+		return []interface{}{"PT010M", "P012D", "PT08S", "PT1H09M", "PT0100S", "P01Y02M", "P007DT08H", "PT36H", "PT90M", "P400D", "PT3600S", "P0Y0M1D", "-PT09M08S"}
+	}
+	return nil
+}
+
 func baseSamples(k string) []interface{} {
 	switch k {
 	case "XMLSchemaString":
